@@ -24,6 +24,16 @@ func docsEqual(a, b bsonkit.Doc) bool {
 	return bytes.Equal(aBytes, bBytes)
 }
 
+// idsEqual reports whether two _id values are identical, i.e. have the same
+// type and value. Unlike the == operator it also handles documents, arrays and
+// binary values.
+func idsEqual(a, b interface{}) bool {
+	if a == bsonkit.Missing || b == bsonkit.Missing {
+		return a == b
+	}
+	return docsEqual(&bson.D{{Key: "_id", Value: a}}, &bson.D{{Key: "_id", Value: b}})
+}
+
 // Result is returned by collection operations.
 type Result struct {
 	// The list of found or deleted documents.
@@ -173,7 +183,7 @@ func (c *Collection) Replace(query, repl, sort bsonkit.Doc) (*Result, error) {
 		if err != nil {
 			return nil, err
 		}
-	} else if bsonkit.Compare(replID, bsonkit.Get(list[0], "_id")) != 0 {
+	} else if !idsEqual(replID, bsonkit.Get(list[0], "_id")) {
 		return nil, fmt.Errorf("document _id is immutable")
 	}
 
@@ -263,7 +273,7 @@ func (c *Collection) Update(query, update, sort bsonkit.Doc, skip, limit int, ar
 
 	// check ids
 	for i, doc := range newList {
-		if bsonkit.Compare(bsonkit.Get(doc, "_id"), bsonkit.Get(list[i], "_id")) != 0 {
+		if !idsEqual(bsonkit.Get(doc, "_id"), bsonkit.Get(list[i], "_id")) {
 			return nil, fmt.Errorf("document _id is immutable")
 		}
 	}
